@@ -352,3 +352,32 @@ PROPERTIES["C13"] = {
          "encoded": _C13_ENC},
     ],
 }
+
+PROPERTIES["C09"] = {
+    "level": "other",
+    "level_text": "bounded symbolic verification: for every value of the symbolic feature cells, targets, parameters, regularisers, strong/weak outputs and scales (fixed small sample counts, concrete schemas, missing patterns, cluster assignments) the linear-model objective and the three gradient-boosting objectives equal their naive per-sample definitions with matching gradients, independent of batch size and caching",
+    "level_note": SRE_NOTE,
+    "technique": SRE_TECH,
+    "explanation": "C09: linear::function_t and gboost::{bias,scale,grads}_function_t through the real datasource -> dataset -> iterator -> loss stack on symbolic float64 cells.",
+    "assumptions": SRE_ASSUME + ["cells boxed to [-8,8]; l1,l2 > 0 symbolic when enabled", "losses covered: mse, mae, m-hinge, m-squared-hinge (reference formulas written independently in the harness)"],
+    "bounds": {"samples": "2..3", "inputs": "2 features (scalar / categorical one-hot)", "outputs": "1 (regression) or 3 (classification)", "batch": "1, 2, 100", "scaling": "all 4 modes"},
+    "outside": ["thread-count independence (needs schedules; only the single-thread inline pool is executed)", "losses with exp/log (logistic, classnll, exponential, savage, tangent, cauchy): see C06", "1e-9 relative floating-point re-association (identities are proved over the reals)"],
+    "units": [
+        {"engine": "sre", "harness": "C09_linear", "sources": ["C09_linear.cpp"],
+         "quick": ["f=rrr;n=3;loss=mse", "f=rrr;n=3;loss=mse;reg=3;miss=1;sc=1", "f=rsr;n=3;loss=mse;sc=2;reg=2;batch=2", "f=rrr;n=3;loss=mse;sc=3;cache=1", "f=rrr;n=2;loss=mae;reg=3;miss=1",
+                   "f=rrr;n=3;loss=mae;reg=1;batch=2", "f=rrs;n=1;loss=m-hinge;reg=1", "f=rrs;n=1;loss=m-squared-hinge;reg=2;sc=2", "f=rmr;n=3;loss=mse;miss=4;cache=1"],
+         "thorough": ["f=rrr;n=3;loss=mse;sc=%d;reg=%d;miss=%d;batch=%d;cache=%d" % (sc, r, m, b, c) for sc in range(4) for (r, m, b, c) in ((0, 0, 100, 0), (3, 1, 2, 1), (1, 2, 1, 0))] +
+                     ["f=rrr;n=3;loss=mae;reg=%d;miss=%d" % (r, m) for r in (0, 3) for m in (0, 1)] + ["f=rrs;n=2;loss=%s;reg=%d" % (l, r) for l in ("m-hinge", "m-squared-hinge") for r in (0, 3)] +
+                     ["f=rsr;n=3;loss=mse;sc=2;reg=2;batch=2", "f=rmr;n=3;loss=mse;miss=4;cache=1", "f=srr;n=4;loss=mse;reg=2"],
+         "budget": {"quick": {"deadline_s": 90, "max_paths": 20000}, "thorough": {"deadline_s": 600, "max_paths": 300000}},
+         "encoded": ["nano::linear::function_t::{ctor, do_vgrad}", "nano::linear::predict", "nano::linear::accumulator_t", "nano::sum_reduce", "nano::flatten_iterator_t::{loop, flatten, targets, scaling, batch, cache_*}",
+                     "nano::scalar_stats_t::scale", "nano::flatten_loss_t<mse/mae/hinge/squared-hinge>::{value, vgrad}", "nano::dataset_t::{flatten, targets}"]},
+        {"engine": "sre", "harness": "C09_gboost", "sources": ["C09_gboost.cpp"],
+         "quick": ["n=3;loss=mse", "n=3;loss=mse;sub=1;batch=2", "n=2;loss=mae;batch=1", "n=3;loss=mae;part=bias", "n=3;loss=mae;part=scale;sub=1", "n=3;loss=mae;part=grads", "n=1;loss=m-hinge;tk=s;part=scale", "n=1;loss=m-hinge;tk=s;part=grads", "n=2;loss=m-hinge;tk=s;part=bias"],
+         "thorough": ["n=%d;loss=%s;part=%s;sub=%d;batch=%d" % (n, l, p, s, b) for n in (2, 3) for l in ("mse", "mae") for p in ("bias", "scale", "grads") for (s, b) in ((0, 100), (1, 2))] +
+                     ["n=2;loss=m-hinge;tk=s;part=%s" % p for p in ("bias", "scale", "grads")],
+         "budget": {"quick": {"deadline_s": 90, "max_paths": 20000}, "thorough": {"deadline_s": 600, "max_paths": 300000}},
+         "encoded": ["nano::gboost::bias_function_t::do_vgrad", "nano::gboost::scale_function_t::do_vgrad", "nano::gboost::grads_function_t::{do_vgrad, gradients}", "nano::gboost::accumulator_t", "nano::cluster_t::group",
+                     "nano::targets_iterator_t::loop", "nano::sum_reduce"]},
+    ],
+}
